@@ -533,9 +533,10 @@ for _prop in ("C01", "C02"):
 def _motion_sampling(S, prop, kind, method):
     """Translate / Rotate of an abstract domain: every returned row is the image of a point of the inner
     domain at the same parameter row:  In_D(x - tau(p_k), p_k)  resp.  In_D(R^-1(x - a) + a, p_k)"""
-    fn = S.cfg.startswith("fn")
+    mixed = S.cfg.startswith("mixed")  # inner domain independent of the parameters, motion a function of them
+    fn = S.cfg.startswith("fn") or mixed
     has_params = S.cfg.endswith("/K")
-    A = abstract_domain(S, "A", S.new(R2, "x"), {"t": 1} if fn else None)
+    A = abstract_domain(S, "A", S.new(R2, "x"), {"t": 1} if (fn and not mixed) else None)
     if kind == "translate":
         if fn:
             tau = RowFn("tau", ["t"], 2, {"t": 1})
@@ -582,7 +583,7 @@ def _motion_sampling(S, prop, kind, method):
     def goal(q):
         x = cols(t, q[0], 2)
         tk = zreal(Tt.val.at([(q[0][0],), ()])) if K is not None else None
-        p = [tk] if fn else []
+        p = [tk] if (fn and not mixed) else []
         if kind == "translate":
             tt = tv(tk)
             return A.in_pred([x[0] - tt[0], x[1] - tt[1]], p)
@@ -602,7 +603,7 @@ for _prop in ("C01", "C02"):
             _h.__name__ = f"{_kind}_{_m}"
             _h.__doc__ = "inner domain abstract; motion constant or a row-wise function of the parameter"
             extra = [_cls + "._translate_points"] if _kind == "translate" else [_cls + "._rotate_points", _cls + "._rotate_grid"]
-            scenario(_prop, [_cls + "." + _m] + extra, configs=(["const/none", "const/K", "fn/K"] if _m == "sample_random_uniform" else ["const/none", "fn/K"]))(_h)
+            scenario(_prop, [_cls + "." + _m] + extra, configs=(["const/none", "const/K", "fn/K", "mixed/K"] if _m == "sample_random_uniform" else ["const/none", "fn/K", "mixed/K"]))(_h)
 
 
 # ----------------------------------------------------------------------------- rejection sampling of cuts / intersections
